@@ -28,6 +28,9 @@ namespace ratio
 
     private:
       void apply() override;
+
+    private:
+      const smt::lit val; // the value assigned to the bool variable by this resolver..
     };
 
   private:
